@@ -63,7 +63,7 @@ def eval_case(kind, cfg, g, ranks):
 
 
 def plan(ctx):
-    out = [(sp, "K0") for sp in ("S2", "P2", "P3", "T3", "T4", "T5|V2", "D7b1", "D8b1")]
+    out = [(sp, "K0") for sp in ("S2", "P2", "P3", "T3", "T4", "T5|V2", "D7b1", "D8b1", "PK")]
     for K in ("K1", "K2", "K3", "K4", "K6", "K7", "K8"):
         out += [("S2", K), ("T3", K)]
     if ctx.thorough:
@@ -73,7 +73,7 @@ def plan(ctx):
     return out
 
 
-PARTS = {"T6|V2": 48, "T5|V2": 4, "D7b1": 4, "D8b1": 8, "S2": 4, "P2": 6, "P3": 8, "T3": 8, "T4": 24, "T5": 64, "T6": 256, "D7": 24, "D8": 64, "D8x8": 64}
+PARTS = {"PK": 2, "T6|V2": 48, "T5|V2": 4, "D7b1": 4, "D8b1": 8, "S2": 4, "P2": 6, "P3": 8, "T3": 8, "T4": 24, "T5": 64, "T6": 256, "D7": 24, "D8": 64, "D8x8": 64}
 
 
 def units(ctx):
